@@ -66,6 +66,66 @@ def mutate(rng, b):
     return bytes(b)
 
 
+def gen_capability(rng):
+    """one capability TLV (code, length, value): every code yabgp decodes with known and unknown
+    families / directions / lengths, plus unknown codes"""
+    afi = rng.choice([1, 2, 25, 16388, 0, 3, 65535])
+    safi = rng.choice([1, 2, 4, 70, 71, 73, 128, 129, 133, 134, 0, 255])
+    k = rng.randrange(9)
+    if k == 0:      # multiprotocol
+        val = struct.pack('!HBB', afi, rng.choice([0, 0, 7]), safi)
+        code = 1
+    elif k == 1:    # route refresh / cisco / enhanced
+        code, val = rng.choice([2, 128, 70]), b'' if rng.random() < 0.8 else b'\x00'
+    elif k == 2:    # 4-octet AS
+        code, val = 65, struct.pack('!I', rng.choice([65002, 23456, 70000, 0, 4294967295]))
+        if rng.random() < 0.15:
+            val = val[:rng.randrange(4)]
+    elif k == 3:    # ADD-PATH: 1..3 entries, known and unknown families and directions
+        code = 69
+        val = b''
+        for _ in range(rng.randrange(1, 4)):
+            val += struct.pack('!HBB', rng.choice([1, 1, 2, afi]), rng.choice([1, 1, 128, safi]),
+                               rng.choice([1, 2, 3, 3, 0, 4, 255]))
+        if rng.random() < 0.15:
+            val = val[:-rng.randrange(1, 4)]
+    elif k == 4:    # graceful restart
+        code = 64
+        val = struct.pack('!H', rng.randrange(65536))
+        for _ in range(rng.randrange(0, 3)):
+            val += struct.pack('!HBB', afi, safi, rng.choice([0, 128]))
+    elif k == 5:    # long-lived graceful restart / extended next hop / dynamic / multisession / fqdn
+        code = rng.choice([71, 5, 67, 68, 73, 6, 9])
+        val = bytes(rng.randrange(256) for _ in range(rng.choice([0, 1, 4, 6, 7, 8, 12])))
+    elif k == 6:    # unknown code
+        code = rng.randrange(256)
+        val = bytes(rng.randrange(256) for _ in range(rng.randrange(0, 9)))
+    elif k == 7:    # empty value for a code that expects one
+        code, val = rng.choice([1, 65, 69, 64]), b''
+    else:           # a value as long as a capability can be
+        code = rng.choice([1, 69, 64, 200])
+        val = bytes(rng.randrange(256) for _ in range(rng.choice([200, 251, 252])))
+    ln = len(val) if rng.random() < 0.9 else rng.choice([0, len(val) + 1, max(0, len(val) - 1), 255])
+    return bytes([code, ln & 0xff]) + val
+
+
+def gen_open(rng):
+    """a structurally valid (mostly) OPEN body with a random capability set"""
+    params = b''
+    for _ in range(rng.randrange(0, 4)):
+        caps = b''.join(gen_capability(rng) for _ in range(rng.randrange(1, 4)))
+        if len(caps) > 255:
+            caps = caps[:255]
+        ptype = 2 if rng.random() < 0.9 else rng.choice([0, 1, 3, 255])
+        plen = len(caps) if rng.random() < 0.92 else rng.choice([0, len(caps) + 1, max(0, len(caps) - 1)])
+        params += bytes([ptype, plen & 0xff]) + caps
+    params = params[:255]
+    optlen = len(params) if rng.random() < 0.92 else rng.choice([0, (len(params) + 1) & 0xff, max(0, len(params) - 1)])
+    return struct.pack('!BHHIB', rng.choice([4, 4, 4, 4, 3, 5]), rng.choice([65002, 65002, 65002, 23456, 65003, 0]),
+                       rng.choice([90, 180, 0, 1, 2, 3, 65535]), rng.choice([0x0a000002, 0, 0xffffffff, 0x0a000001]),
+                       optlen) + params
+
+
 STATE_PREFIXES = {
     'OpenSent': (('boot',), ('connok', 0)),
     'OpenConfirm': (('boot',), ('connok', 0), ('data', 0, M['open_ok'])),
@@ -106,6 +166,10 @@ def run(ctx):
         ty = M[nm][18]
         for _ in range(20 if ctx.thorough else 6):
             bodies.append((ty, mutate(rng, body)))
+    # structure-aware OPENs: every capability code yabgp decodes, known/unknown families, bad lengths
+    n_open = 1500 if ctx.thorough else 260
+    for _ in range(n_open):
+        bodies.append((1, gen_open(rng)))
     for _ in range(40 if ctx.thorough else 10):
         bodies.append((rng.choice([1, 2, 3, 4, 5, 128]), bytes(rng.randrange(256) for _ in range(rng.randrange(0, 64)))))
     bodies = [(ty, b) for ty, b in bodies if len(b) + 19 <= 4096]
@@ -118,11 +182,14 @@ def run(ctx):
 
     viol, traces, samples = [], [], []
     kinds = {'sub_error': 0, 'raise': 0, 'ok': 0, 'closed': 0}
+    hangs = 0
     n = 0
-    signal.signal(signal.SIGALRM, _alarm)
+    signal.signal(signal.SIGVTALRM, _alarm)
     states = list(STATE_PREFIXES.items())
     for idx, (ty, body) in enumerate(bodies):
         sname, prefix = states[idx % 3] if ty != 2 else ('Established', sc.EST_PREFIX) if idx % 4 else states[idx % 3]
+        if ty == 1 and idx % 5:
+            sname, prefix = states[0]       # OpenSent: the state in which an OPEN body is decoded and acted on
         msg = MARK + struct.pack('!HB', 19 + len(body), ty) + body
         d = session.Driver()
         for e in prefix:
@@ -139,6 +206,9 @@ def run(ctx):
             signal.setitimer(signal.ITIMER_VIRTUAL, 0)
             viol.append({'what': 'CPU budget exceeded (decoder hang) in state %s' % sname, 'type': ty,
                          'body': body.hex(), 'known': None})
+            hangs += 1
+            if hangs >= 3:      # each one costs the whole CPU budget: three witnesses are enough
+                break
             continue
         outs = res[0][1]
         if any(o == [4] for r in res for o in r[1]):
@@ -176,7 +246,8 @@ def run(ctx):
     runs, mism = sc.compare_traces(ctx, traces, per_shard=25)
     return {'evaluations': n + len(traces), 'distinct': len({b for _, b in bodies}),
             'rule': 'bodies = every bytes literal of the unit tests (as UPDATE body, as attribute block) + byte/bit/'
-                    'length mutations + mutated known-good OPEN/UPDATE/NOTIFICATION/ROUTE-REFRESH + random; delivered in '
+                    'length mutations + mutated known-good OPEN/UPDATE/NOTIFICATION/ROUTE-REFRESH + structure-aware OPENs (random '
+                    'capability sets: every decoded code, known/unknown families and directions, bad lengths) + random; delivered in '
                     'OpenSent/OpenConfirm/Established, followed by a known-good UPDATE and KEEPALIVE; distinct = distinct bodies',
             'samples': samples, 'mismatches': mism, 'violations': viol,
             'extra': {'unit_test_literals': len(lits), 'bodies': len(bodies), 'model_traces': len(traces),
